@@ -2,9 +2,15 @@
 EXTENDS Prepared, Json
 VARIABLE hist
 gv == <<vars, hist>>
-GNext == \E c \in Clients, s \in Conns, b \in Batches :
-           /\ RunBatch(c, s, b)
-           /\ hist' = Append(hist, [c |-> c, s |-> s, items |-> [i \in 1..Len(b) |-> b[i]]])
+GNext == \/ \E c \in Clients, s \in Conns, b \in Batches :
+              /\ RunBatch(c, s, b)
+              /\ hist' = Append(hist, [c |-> c, s |-> s, items |-> [i \in 1..Len(b) |-> b[i]]])
+         \* (at most one simple-protocol PREPARE per program)
+         \* (w only gives this step some weight against the thousands of batches when TLC samples behaviours)
+         \/ \E c \in Clients, s \in Conns, w \in 1..150 :
+              /\ ~\E i \in 1..Len(hist) : hist[i].items[1].k = "SP"
+              /\ SqlPrepare(c, s)
+              /\ hist' = Append(hist, [c |-> c, s |-> s, items |-> <<[k |-> "SP", n |-> "adhoc"]>>])
 GSpec == Init /\ hist = <<>> /\ [][GNext]_gv
 Emit == (nb = MaxBatches) => PrintT(<<"SCENARIO", ToJson(hist)>>)
 =============================================================================
